@@ -17,7 +17,7 @@ from vf.util import plain
 from vf.props import c01
 
 LEVEL = "exploration"
-RULE = ("random rulebooks with the standard diff logics only (default, %ordered, %rewrite-children blocks, %global incl. catch-all, '!'-ignore rules; "
+RULE = ("random rulebooks with the standard diff logics only (default, %ordered, %rewrite-children blocks, %global incl. catch-all, '!'-ignore rules, %ignore_case leaf rules beside rows with upper-case words; "
         "nesting<=3) x vendors whose default diff logic is the common one (block-CLI vendors except aruba, plus juniper/ribbon/nokia for the brace text view); "
         "pairs (old,new): new derived from old by random edits (incl. reordering) or generated independently; also (x,x). Non-trivial: the stripped diff "
         "has >=2 entries on >=2 depths. Distinct: hash of (vendor, rulebook, old, new).")
@@ -26,8 +26,8 @@ ASSUMPTIONS = [
     "an unchanged %rewrite unit is absent from the diff by design: the projection law is evaluated modulo such units",
     "order is compared inside %ordered groups only (call_diff_logic concatenates groups)",
 ]
-FLOORS = {"quick": {"diffs_compared": 3000, "moved_entries": 200, "rewrite_units_changed": 50, "text_views_checked": 3000, "self_diffs": 1000},
-          "thorough": {"diffs_compared": 150000, "moved_entries": 10000, "rewrite_units_changed": 2500, "text_views_checked": 150000, "self_diffs": 50000}}
+FLOORS = {"quick": {"diffs_compared": 3000, "moved_entries": 200, "rewrite_units_changed": 50, "text_views_checked": 3000, "self_diffs": 1000, "ignore_case_rulebooks": 400},
+          "thorough": {"diffs_compared": 150000, "moved_entries": 10000, "rewrite_units_changed": 2500, "text_views_checked": 150000, "self_diffs": 50000, "ignore_case_rulebooks": 15000}}
 VENDORS = ["huawei", "h3c", "optixtrans", "cisco", "nexus", "iosxr", "arista", "b4com", "pc", "juniper", "ribbon", "nokia"]
 BRACE = {"juniper", "ribbon", "nokia"}
 
@@ -163,7 +163,23 @@ def read_pre_diff(text, indent):
     return root
 
 
-def make_case(seed):
+def _upper_some(rng, tree, level, inherited=()):
+    """upper-case the free words (keys, trailing words) of some rows whose rule is not %ignore_case"""
+    l, g = RB.split_level(level, inherited)
+    out = type(tree)()
+    for row, ch in tree.items():
+        s = RB.select(row, l, g)
+        new_row = row
+        if s is not None and "%ignore_case" not in s[0].extra and not s[0].rewrite and rng.random() < 0.5:
+            lits = {t[1] for t in __import__("vf.ref.rulelang", fromlist=["x"]).tokenize(s[0].pat)[0] if t[0] == "lit"}
+            new_row = " ".join(w if w in lits else w.upper() for w in row.split())
+        sub = _upper_some(rng, ch, s[2], s[3]) if (s is not None and ch) else ch
+        if new_row not in out:
+            out[new_row] = sub
+    return out
+
+
+def make_case(seed, icase=False):
     rng = random.Random(seed)
     vname = VENDORS[rng.randrange(len(VENDORS))]
     v, prefix, exitw, hw, fmt = c01.vendor_env(vname)
@@ -185,6 +201,18 @@ def make_case(seed):
         new = G.gen_tree(rng, rules, foreign=0.2)
     else:
         new = old
+    if icase:
+        # one %ignore_case leaf rule per level it lands on (its own rows stay lower-case: lower-casing them is the identity);
+        # sibling rows carry upper-case words, which the diff must leave alone
+        marked = 0
+        for lvl_rules in [rules] + [r.children for r in rules if r.children]:
+            cands = [r for r in lvl_rules if not r.children and not r.ordered and not r.rewrite and not r.glob and r.pat != "~"]
+            if cands and rng.random() < 0.8:
+                rng.choice(cands).extra = "%ignore_case"
+                marked += 1
+        same = new is old
+        old = _upper_some(rng, old, rules)
+        new = old if same else _upper_some(rng, new, rules)
     return vname, rules, old, new
 
 
@@ -196,14 +224,16 @@ def _sprinkle(rng, tree):
             _sprinkle(rng, tree[row])
 
 
-def check_case(seed, acc):
+def check_case(seed, acc, icase=False):
     from annet.annlib.patching import make_diff, strip_unchanged, make_pre
     from annet.annlib.diff import gen_pre_as_diff
-    vname, rules, old, new = make_case(seed)
+    vname, rules, old, new = make_case(seed, icase)
+    if icase and G.has_feature(rules, lambda r: "%ignore_case" in r.extra):
+        acc.count("ignore_case_rulebooks")
     v, prefix, exitw, hw, fmt = c01.vendor_env(vname)
     text = RB.render(rules)
     po, pn = plain(old), plain(new)
-    w = {"seed": seed, "vendor": vname, "rulebook": text, "old": po, "new": pn}
+    w = {"seed": seed, "icase": icase, "vendor": vname, "rulebook": text, "old": po, "new": pn}
     try:
         rb = c01.compile_rb(text, vname)
         d = make_diff(old, new, rb, [])
@@ -276,7 +306,7 @@ def check_case(seed, acc):
 
 def run_shard(spec, acc):
     if spec["mode"] == "replay":
-        check_case(spec["witness"]["seed"], acc)
+        check_case(spec["witness"]["seed"], acc, icase=bool(spec["witness"].get("icase")))
         return
     tier, k, n = spec["tier"], spec["shard"], spec["nshards"]
     total = 4000 if tier == "quick" else 160000
@@ -285,3 +315,5 @@ def run_shard(spec, acc):
         w = check_case(rng.randrange(1 << 48), acc)
         if j < 2 and w:
             acc.sample({k2: w[k2] for k2 in ("vendor", "rulebook", "old", "new", "diff")})
+        if j % 5 == 4:
+            check_case(rng.randrange(1 << 48), acc, icase=True)
